@@ -731,9 +731,35 @@ def castType (t : Ty) (e : Operand) : Option Operand :=
   else some { ty := t, nullconst := e.nullconst && (t.isInt || t.isVoidPtr),
               constval := if t.isInt then e.constval else none }
 
-/-- `mkassignexpr(l, r)` reached from `assignexpr` (`l` must be an lvalue): type of the left operand -/
-def assignType (l _r : Operand) : Option Operand :=
-  if l.lvalue then some (rvalue l.ty) else none
+/-- pointer-assignment check of `exprassign` (`case TYPEPOINTER`) -/
+def ptrAssignOk (t : Ty) (e : Operand) : Bool :=
+  match t with
+  | .ptr tq tb =>
+    if e.nullconst then true
+    else match e.ty with
+      | .ptr eq eb =>
+        (tb == .void || eb == .void || typecompatible tb eb) && eq.subset tq
+      | _ => false
+  | _ => false
+
+/-- `exprassign(e, t)`: may a value `e` be assigned to / initialise / be passed or returned as an object
+of type `t`?  (`false` = one of its `error`s, or the `assert(t->prop & PROPARITH)` of the default
+case.)  `nullpointer(e)` is tested on the expression as parsed; for the constants the model
+describes this is `e.nullconst`. -/
+def exprassignOk (t : Ty) (e : Operand) : Bool :=
+  match t with
+  | .arith (.basic .bool) => e.ty.isArith || e.ty.isPtr || e.ty == .nullptr
+  | .arith _ => e.ty.isArith
+  | .ptr .. => ptrAssignOk t e
+  | .nullptr => e.nullconst
+  | .struct _ | .union _ => typecompatible t e.ty
+  | _ => false
+
+/-- `assignexpr`, simple assignment: `l` must be an lvalue and `mkassignexpr(l, exprassign(r, l->type))`
+(fix 132893c: the operator applies the constraints of 6.5.16.1 like initialisation does);
+type of the left operand -/
+def assignType (l r : Operand) : Option Operand :=
+  if l.lvalue then (if exprassignOk l.ty r then some (rvalue l.ty) else none) else none
 
 /-- `E1 op= E2`: the rewritten `T = &E1, *T = *T op E2`; the comma expression has `l->type` -/
 def compoundAssignType (sc : Bool) (op : BinOp) (l r : Operand) : Option Operand :=
@@ -781,7 +807,9 @@ def memberType (arrow : Bool) (e : Operand) (mty : Ty) (mq : Qual) (bits : Optio
     if !t.isStructUnion then none
     else
       let r := decay { ty := mty, qual := tq.union mq, lvalue := true }
-      some { r with lvalue := lv, width := memberWidth mty bits }
+      -- `(r->decayed ? r->base : r)->lvalue = lvalue;` — a member of array (or function) type has decayed
+      -- to a pointer, which is not an lvalue (fix 2005721)
+      some { r with lvalue := if r.decayedFrom.isSome then false else lv, width := memberWidth mty bits }
   | none => none
 
 /-- `_Generic`: index of the selected association (`none` = error: several match, or no match and
@@ -792,17 +820,6 @@ def genericSelect (want : Ty) (assocs : List (Ty × Qual)) (hasDefault : Bool) :
   | [i] => some (some i)
   | [] => if hasDefault then some none else none
   | _ => none
-
-/-- pointer-assignment check of `exprassign` (`case TYPEPOINTER`) -/
-def ptrAssignOk (t : Ty) (e : Operand) : Bool :=
-  match t with
-  | .ptr tq tb =>
-    if e.nullconst then true
-    else match e.ty with
-      | .ptr eq eb =>
-        (tb == .void || eb == .void || typecompatible tb eb) && eq.subset tq
-      | _ => false
-  | _ => false
 
 /-- redeclaration check of `declcommon` -/
 def redeclOk (t : Ty) (tq : Qual) (prior : Ty) (priorq : Qual) : Bool :=
